@@ -29,6 +29,20 @@ macro "cinv_close" : tactic =>
   `(tactic| (constructor <;> simp_all [CPc.waiting] <;> (try split) <;> (try simp_all [CPc.waiting]) <;> (try omega) <;>
       (try (intros; simp_all [CPc.waiting])) <;> (try omega)))
 
+theorem cinv_parentCancel (s s' : St α)  (hw : WInv s) (h : CInv s) (hs : step s (.parentCancel ) = some s') : CInv s' := by
+  obtain ⟨open_, cnt, waitPh, trPh, cancelPh, firePh, donePh, closerClosed, loadPh, gracePh, failedSend, untilGrace, gracefulOnly, graceNotLoop, loopAsync⟩ := h
+  have hfifo := hw.fifo
+  have hidleC := hw.idleClean
+  have hidleF := hw.idleFlushed
+  have hstore := hw.storeReady
+  have hfle := hw.flushedLe
+  have hnob := hw.noOwnerBatch
+  have hlen1 := hw.len1Ready
+  have hasync := hw.asyncNoLock
+  have hsync := hw.syncNoSender
+  have hfb := hw.failedBroken
+  simp only [step] at hs; simp at hs; subst hs; cinv_close
+
 theorem cinv_beginWrite (s s' : St α)  (hw : WInv s) (h : CInv s) (hs : step s (.beginWrite ) = some s') : CInv s' := by
   obtain ⟨open_, cnt, waitPh, trPh, cancelPh, firePh, donePh, closerClosed, loadPh, gracePh, failedSend, untilGrace, gracefulOnly, graceNotLoop, loopAsync⟩ := h
   have hfifo := hw.fifo
@@ -495,6 +509,7 @@ theorem cinv_closeFire (s s' : St α)  (hw : WInv s) (h : CInv s) (hs : step s (
 
 theorem cinv_step (s s' : St α) (a : Act α) (hw : WInv s) (h : CInv s) (hs : step s a = some s') : CInv s' := by
   cases a with
+  | parentCancel  => exact cinv_parentCancel s s'  hw h hs
   | beginWrite  => exact cinv_beginWrite s s'  hw h hs
   | rejectWrite  => exact cinv_rejectWrite s s'  hw h hs
   | enqueue p => exact cinv_enqueue s s' p hw h hs
